@@ -48,6 +48,15 @@ def cases(tier, variants):
         for k in range(1, 9):
             for dl in (1, 2, 3, 1000):
                 yield dict(b, part="split", k=k, fd="2-point", dmaxfun=dl)
+    yield from _extra_cases(tier, variants)
+
+
+def _extra_cases(tier, variants):
+    # configuration letter: an unrelated option (the finite-difference step `eps`, unused
+    # with a callable gradient) set to a large value in the parent and in the restart
+    for b in H.base_runs(variants, maxcors=(3,), small=(tier == "quick")):
+        for k in range(1, 9):
+            yield dict(b, part="split", k=k, fdeps=0.5)
 
 
 def run(case):
@@ -57,6 +66,8 @@ def run(case):
     if part == "split":
         k = case["k"]
         kwx = {}
+        if case.get("fdeps"):
+            kwx["eps"] = case["fdeps"]
         if case.get("fd"):
             kwx["jac"] = case["fd"]
             n_at_k = H.solve(p, case, k, **kwx).nfev
